@@ -429,7 +429,9 @@ public:
             {
                 if (applymask && !mask[src_y][src_x])
                     continue;
-                auto scaled_px = src_it[src_x];
+                // a copy of the pixel: for planar views src_it[src_x] is a proxy, and dividing through it would
+                // divide the source image itself (and does not compile for a const planar view)
+                typename SrcView::value_type scaled_px = src_it[src_x];
                 // divide in a signed type: a negative channel converted to std::size_t is a huge positive number
                 static_for_each(scaled_px, [&](channel_t& ch) {
                     ch = static_cast<channel_t>(ch / static_cast<std::ptrdiff_t>(bin_width));
